@@ -1,0 +1,22 @@
+//go:build verif
+
+// Contracts (machine-checked by /verif/engine, see /verif/DESIGN.md). Comment-only file.
+package proto
+
+// ---- protocol-number comparisons (used by version-gated branches all over the proxy) -----------------------------
+//@ func (Protocol).GreaterEqual
+//@   props C27
+//@   modifies nothing
+//@   ensures result == (p >= then.Protocol)
+//@ func (Protocol).Greater
+//@   props C27
+//@   modifies nothing
+//@   ensures result == (p > then.Protocol)
+//@ func (Protocol).LowerEqual
+//@   props C27
+//@   modifies nothing
+//@   ensures result == (p <= then.Protocol)
+//@ func (Protocol).Lower
+//@   props C27
+//@   modifies nothing
+//@   ensures result == (p < then.Protocol)
